@@ -41,21 +41,52 @@ theorem kvSum_scale [CommSemiring α] (E : List (List Nat × α)) (f : List Nat 
     · simp [h]
     · simp [h]
 
-/-- The denotation of the scaled tensor for any per-entry factor `f`. -/
-theorem sparse_scale_get [CommSemiring α] (S : Sparse α) (hl : S.subs.length = S.vals.length)
-    (f : List Nat → α) (i : List Nat) :
-    Sparse.get ⟨S.shape, S.subs, (S.subs.zip S.vals).map fun e => e.2 * f e.1⟩ i = S.get i * f i := by
-  have hsubs : S.subs = S.entries.map (·.1) := (S.entries_keys hl).symm
-  show kvSum (S.subs.zip _) i = _
-  have : S.subs.zip (S.entries.map fun e => e.2 * f e.1) =
-      S.entries.map fun e => (e.1, e.2 * f e.1) :=
-    (congrArg (fun l => l.zip (S.entries.map fun e => e.2 * f e.1)) hsubs).trans (zip_map_map S.entries _ _)
-  show kvSum (S.subs.zip (S.entries.map fun e => e.2 * f e.1)) i = _
-  rw [this, kvSum_scale]
-  rfl
+theorem kvSum_filter_nz [AddMonoid α] [DecidableEq α] (l : List (List Nat × α)) (i : List Nat) :
+    kvSum (l.filter fun e => !(e.2 == 0)) i = kvSum l i := by
+  induction l with
+  | nil => rfl
+  | cons e l ih =>
+    by_cases hz : e.2 = 0
+    · have : (!(e.2 == 0)) = false := by simp [hz]
+      rw [List.filter_cons, this]
+      simp only [Bool.false_eq_true, if_false]
+      rw [ih, kvSum_cons]
+      by_cases hk : e.1 = i
+      · rw [if_pos hk, hz, zero_add]
+      · rw [if_neg hk, zero_add]
+    · have : (!(e.2 == 0)) = true := by simp [hz]
+      rw [List.filter_cons, this]
+      simp only [if_true]
+      rw [kvSum_cons, kvSum_cons, ih]
+
+/-- The denotation of the scaled tensor for any per-cell factor `f`, and its well-formedness. -/
+theorem sparse_scale_get [CommSemiring α] [DecidableEq α] (S : Sparse α) (hS : S.WF)
+    (f : List Nat → α) :
+    (S.scaleWith f).shape = S.shape ∧ (S.scaleWith f).WF ∧ ∀ i, (S.scaleWith f).get i = S.get i * f i := by
+  have hsubs : S.subs = S.entries.map (·.1) := (S.entries_keys hS.len).symm
+  set ev := S.entries.map fun e => (e.1, e.2 * f e.1) with hev
+  set nz := ev.filter fun e => !(e.2 == 0) with hnz
+  have hform : S.scaleWith f = ⟨S.shape, nz.map (·.1), nz.map (·.2)⟩ := rfl
+  have hkeys : ev.map (·.1) = S.subs := by rw [hev, List.map_map, hsubs]; rfl
+  have hsub : (nz.map (·.1)).Sublist S.subs := by
+    rw [← hkeys]; exact (List.filter_sublist).map _
+  refine ⟨rfl, ?_, ?_⟩
+  · rw [hform]
+    refine ⟨by simp, ?_, hsub.nodup hS.nodup, ?_⟩
+    · intro k hk; exact hS.inb k (hsub.subset hk)
+    · intro v hv
+      obtain ⟨e, he, rfl⟩ := List.mem_map.1 hv
+      have := (List.mem_filter.1 he).2
+      simpa using this
+  · intro i
+    rw [hform]
+    show kvSum ((nz.map (·.1)).zip (nz.map (·.2))) i = _
+    rw [zip_fst_snd, hnz, kvSum_filter_nz, hev, kvSum_scale]
+    rfl
 
 /-- **Sparse `scale`** with a dense, sparse or plain-array factor whose modes are the selected
-modes in increasing order: `Y[i] = X[i] · F[i[sel]]`. -/
+modes in increasing order: `Y[i] = X[i] · F[i[sel]]`; vanishing products are not stored, so the
+result is well-formed. -/
 theorem sparse_scale_spec [CommSemiring α] [DecidableEq α] (S : Sparse α) (hS : S.WF) (F : Sparse.ScaleFactor α)
     (d : List Nat) (hd : d.Nodup) (hN : ∀ x ∈ d, x < S.shape.length)
     (Fden : Den α)
@@ -63,7 +94,7 @@ theorem sparse_scale_spec [CommSemiring α] [DecidableEq α] (S : Sparse α) (hS
       | .dense D => D.shape = gather S.shape (sdimsOf d) ∧ Fden = D.den
       | .sparse G => G.shape = gather S.shape (sdimsOf d) ∧ G.WF ∧ Fden = G.den
       | .array v => d.length = 1 ∧ [v.length] = gather S.shape (sdimsOf d) ∧ Fden = (⟨[v.length], v⟩ : Dense α).den) :
-    ∃ Y, S.scale F (d.map Int.ofNat) = .ok Y ∧ Y.shape = S.shape ∧
+    ∃ Y, S.scale F (d.map Int.ofNat) = .ok Y ∧ Y.shape = S.shape ∧ Y.WF ∧
       ∀ i, Y.get i = Spec.scale S.den Fden (sdimsOf d) i := by
   have h1 := resolveDims_some S.shape.length d hd hN
   unfold Sparse.scale
@@ -72,16 +103,16 @@ theorem sparse_scale_spec [CommSemiring α] [DecidableEq α] (S : Sparse α) (hS
   | dense D =>
     obtain ⟨hs, rfl⟩ := hF
     simp only [hs, bne_self_eq_false, Bool.false_eq_true, if_false]
-    exact ⟨_, rfl, rfl, fun i => sparse_scale_get S hS.len (fun k => D.get (gather k (sdimsOf d))) i⟩
+    obtain ⟨e1, e2, e3⟩ := sparse_scale_get S hS (fun k => D.get (gather k (sdimsOf d)))
+    exact ⟨_, rfl, e1, e2, e3⟩
   | sparse G =>
     obtain ⟨hs, hG, rfl⟩ := hF
     simp only [hs, bne_self_eq_false, Bool.false_eq_true, if_false]
-    refine ⟨_, rfl, rfl, fun i => ?_⟩
-    have : ((S.subs.zip S.vals).map fun e => e.2 * G.lookup (gather e.1 (sdimsOf d))) =
-        (S.subs.zip S.vals).map fun e => e.2 * G.get (gather e.1 (sdimsOf d)) := by
-      apply List.map_congr_left; intro e _; rw [lookup_eq_get G hG]
+    have : (fun k => G.lookup (gather k (sdimsOf d))) = fun k => G.get (gather k (sdimsOf d)) := by
+      funext k; exact lookup_eq_get G hG _
     rw [this]
-    exact sparse_scale_get S hS.len (fun k => G.get (gather k (sdimsOf d))) i
+    obtain ⟨e1, e2, e3⟩ := sparse_scale_get S hS (fun k => G.get (gather k (sdimsOf d)))
+    exact ⟨_, rfl, e1, e2, e3⟩
   | array v =>
     obtain ⟨hl1, hs, rfl⟩ := hF
     have hsl : (sdimsOf d).length = 1 := by rw [(sdimsOf_perm d).length_eq]; exact hl1
@@ -90,14 +121,13 @@ theorem sparse_scale_spec [CommSemiring α] [DecidableEq α] (S : Sparse α) (hS
       | [m], _ => exact ⟨m, rfl⟩
     have g : ([v.length] != gather S.shape (sdimsOf d)) = false := by rw [hs]; simp
     simp only [hsl, bne_self_eq_false, Bool.false_eq_true, if_false, g]
-    refine ⟨_, rfl, rfl, fun i => ?_⟩
-    have := sparse_scale_get S hS.len (fun k => (⟨[v.length], v⟩ : Dense α).get (gather k (sdimsOf d))) i
-    rw [show Spec.scale S.den (⟨[v.length], v⟩ : Dense α).den (sdimsOf d) i =
-      S.get i * (⟨[v.length], v⟩ : Dense α).get (gather i (sdimsOf d)) from rfl, ← this]
-    congr 2
-    apply List.map_congr_left
-    intro e _
-    simp [hm0, Dense.get, sub2ind, gather]
+    have : (fun (k : List Nat) => v.getD (k.getD ((sdimsOf d).getD 0 0) 0) 0) =
+        fun k => (⟨[v.length], v⟩ : Dense α).get (gather k (sdimsOf d)) := by
+      funext k
+      simp [hm0, Dense.get, sub2ind, gather]
+    rw [this]
+    obtain ⟨e1, e2, e3⟩ := sparse_scale_get S hS (fun k => (⟨[v.length], v⟩ : Dense α).get (gather k (sdimsOf d)))
+    exact ⟨_, rfl, e1, e2, e3⟩
 
 /-! ### contract -/
 
